@@ -2,7 +2,7 @@
 # usage: mutants.sh <dir-with-mutants> <out-file>  -- for each <dir>/<Cxx>-m<k>/patch.diff: apply in a scratch worktree of
 # /repo, run the check(s) of that property (and extra ones listed in <dir>/<name>/checks), record exit codes.
 D=$1; OUT=$2
-W=/tmp/mutrepo
+W=${MUTW:-/tmp/mutrepo}
 rm -rf $W; git -C /repo worktree prune; git -C /repo worktree add -q --detach $W HEAD || exit 2
 for m in $D/*/; do
   name=$(basename $m); prop=${name%%-*}
@@ -13,7 +13,7 @@ for m in $D/*/; do
   line="$name:"
   for c in $checks; do
     [ -f /verif/rules/$(echo $c | tr A-Z a-z).py ] || { line="$line $c=nocheck"; continue; }
-    JAQ_REPO=$W VERIF_EVIDENCE_DIR=/tmp/mut-evidence /verif/check $c > /tmp/mut-$name-$c.out 2>&1; rc=$?
+    JAQ_REPO=$W VERIF_EVIDENCE_DIR=/tmp/mut-evidence-$(basename $W) /verif/check $c > /tmp/mut-$name-$c.out 2>&1; rc=$?
     v=$(grep -A1 '^VIOLATION' /tmp/mut-$name-$c.out | grep '^  rule' | sed 's/^  rule \([A-Za-z0-9.]*\):.*/\1/' | sort -u | tr '\n' ',')
     line="$line $c=exit$rc[$v]"
   done
